@@ -37,14 +37,26 @@ QueryOf(e) == BuildQuery(e.c, e.q)
 ---------------------------------------------------------------------------
 (* ids                                                                     *)
 Hex == (48..57) \cup (97..102)
+HexAny == Hex \cup (65..70)
 IsCanonUUID(b) ==
     /\ Len(b) = 36
     /\ \A i \in 1..36 : IF i \in {9, 14, 19, 24} THEN b[i] = 45 ELSE b[i] \in Hex
+\* every textual form uuid.FromString accepts is a valid _id: canonical (either case), 32 hex
+\* digits, either of them in braces or after "urn:uuid:".  The _id is the string itself: two
+\* forms of one UUID are two ids.
+IsDashed(b) == Len(b) = 36 /\ \A i \in 1..36 : IF i \in {9, 14, 19, 24} THEN b[i] = 45 ELSE b[i] \in HexAny
+IsHash(b)   == Len(b) = 32 /\ \A i \in 1..32 : b[i] \in HexAny
+IsBare(b)   == IsDashed(b) \/ IsHash(b)
+UrnPrefix   == <<117, 114, 110, 58, 117, 117, 105, 100, 58>>
+IsValidId(b) ==
+    \/ IsBare(b)
+    \/ Len(b) \in {34, 38} /\ b[1] = 123 /\ b[Len(b)] = 125 /\ IsBare(SubSeq(b, 2, Len(b) - 1))
+    \/ Len(b) \in {41, 45} /\ SubSeq(b, 1, 9) = UrnPrefix /\ IsBare(SubSeq(b, 10, Len(b)))
 
 NeedsGen(d) == ~ObjHas(d[2], IdKey) \/ ObjLookup(d[2], IdKey) = <<"str", <<>>>>
 
 ValidDoc(d) ==
-    /\ IsCanonUUID(DocId(d))
+    /\ IsValidId(DocId(d))
     /\ ObjHas(d[2], ExpiresKey) => ObjLookup(d[2], ExpiresKey)[1] = "time"
 
 ---------------------------------------------------------------------------
